@@ -8,6 +8,7 @@ import (
 	"github.com/invopop/gobl/head"
 	"github.com/invopop/gobl/internal/vrt"
 	"github.com/invopop/gobl/l10n"
+	"github.com/invopop/gobl/org"
 	"github.com/invopop/gobl/schema"
 	"github.com/invopop/gobl/tax"
 	"github.com/invopop/gobl/uuid"
@@ -32,6 +33,12 @@ func H_C16_Correct() {
 		src.Code = cbc.Code(c16Str("code"))
 	}
 	src.Series = cbc.Code(c16Str("series"))
+	// the source may itself be a correction and already point at an older document
+	hadPreceding := vrt.Choice("source-has-preceding", 2) == 1
+	if hadPreceding {
+		old := cal.MakeDate(2023, 1, 2)
+		src.Preceding = []*org.DocumentRef{{Code: "OLD", Series: "Z", IssueDate: &old}}
+	}
 	cd := src.correctionDef()
 	var opts []schema.Option
 	var typ cbc.Key
@@ -133,7 +140,10 @@ func H_C16_Correct() {
 		vrt.Assert(found, "preceding-carries-required-stamps")
 	}
 	// the source document itself (the value Correct did not receive) is as before
-	vrt.Assert(src.Code == wantCode && src.UUID == wantUUID && src.Type == wantType && len(src.Preceding) == 0, "source-document-untouched")
+	vrt.Assert(src.Code == wantCode && src.UUID == wantUUID && src.Type == wantType && len(src.Preceding) == boolInt(hadPreceding), "source-document-untouched")
+	if hadPreceding {
+		vrt.Assert(src.Preceding[0].Code == "OLD" && src.Preceding[0].Series == "Z", "source-preceding-reference-untouched")
+	}
 }
 
 // H_C16_Replicate: a replica keeps the business content but has no identifier, no code, a new date.
